@@ -16,8 +16,9 @@ import warnings
 import numpy as np
 from harness import common as C
 
-RULE = ('histories over the alphabet {read_x, read_y, read_r, read_t, crop, pad1, pad21, mask, mask_r, fill, spike_clip, '
-        'remove_piston, remove_tiptilt, remove_power, recenter, latcal2, latcal037, strip_latcal, filter}: exhaustive up to '
+RULE = ('histories over the alphabet {read_x, read_y, read_r, read_t, crop, pad1, pad21, padshape0, mask, mask_r, fill, spike_clip, '
+        'remove_piston, remove_tiptilt, remove_power, recenter, latcal2, latcal037, strip_latcal, filter, exact_xy, exact_x, pvr, '
+        'slices, copy, psd}: exhaustive up to '
         'length 3 on 6 configurations and 2 on the other 26 (quick) / 4 on 4 and 3 on the other 28, 5 over the coordinate-relevant sub-alphabet on 1 (thorough) by prefix-shared DFS on configurations '
         '(shape in 8x8, 9x7, 12x9, 7x10; NaN pattern none / circular / ragged edge / interior dropouts; dx in 1, 0.37), plus '
         'seeded random histories up to length 40; crop additionally on every shape of a list (wide, tall, square, odd/even, 1-wide) x all 16 combinations of touching-the-edge / all-invalid margin on the four sides x two margin-width assignments x caches empty/populated; every step of every history is one case; a case is non-trivial unless '
@@ -37,10 +38,14 @@ PATTERNS = ['none', 'circular', 'ragged', 'dropouts', 'infs']
 DXS = [1.0, 0.37]
 ALPHABET = ['read_x', 'read_y', 'read_r', 'read_t', 'crop', 'pad1', 'pad21', 'mask', 'mask_r', 'fill', 'spike_clip',
             'remove_piston', 'remove_tiptilt', 'remove_power', 'recenter', 'latcal2', 'latcal037', 'strip_latcal', 'filter',
-            'exact_xy', 'exact_x', 'pvr', 'slices', 'copy', 'psd']
+            'exact_xy', 'exact_x', 'pvr', 'slices', 'copy', 'psd', 'padshape0']
+# depth-3 exhaustive sweeps leave out operations whose effect on the caches duplicates another one's
+DFS3_ALPHABET = [op for op in ALPHABET if op not in ('pad21', 'latcal037', 'slices', 'psd', 'read_y')]
+# dx = 0 (no lateral calibration, all coordinates 0): without the operations that divide by dx / need an ascending grid
+DX0_ALPHABET = [op for op in ALPHABET if op not in ('filter', 'mask_r', 'exact_xy', 'exact_x', 'pvr', 'psd', 'slices')]
 COORD_ALPHABET = ['read_x', 'read_r', 'crop', 'pad1', 'mask_r', 'remove_tiptilt', 'recenter', 'latcal2', 'strip_latcal', 'filter',
                   'exact_xy']
-CHANGERS = {'mask', 'mask_r', 'fill', 'spike_clip', 'crop', 'pad1', 'pad21', 'filter'}
+CHANGERS = {'mask', 'mask_r', 'fill', 'spike_clip', 'crop', 'pad1', 'pad21', 'padshape0', 'filter'}
 # operations that only read: the data must come back bit-identical, dx untouched
 READ_ONLY = {'read_x', 'read_y', 'read_r', 'read_t', 'exact_xy', 'exact_x', 'pvr', 'slices', 'copy', 'psd'}
 TOL = 1e-9
@@ -127,6 +132,10 @@ def apply_op(i, op):
         add = (s, s) if isinstance(s, int) else s
         i.pad(samples=s)
         return [('pad', 0.0, (sh[0] + add[0], sh[1] + add[1]), (0, 0))]
+    if op == 'padshape0':
+        sh = i.data.shape
+        i.pad(0.0, shape=(sh[0] + 3, sh[1] + 2))
+        return [('pad', 0.0, (sh[0] + 3, sh[1] + 2), (0, 0))]
     if op == 'mask':
         i.mask(_circle_mask(i.data.shape))
         return [('mask',) + z]
@@ -257,6 +266,8 @@ def _coord_failures_order(j, order):
         out.append(f'x is not spaced by dx={dx}: first step {x[0, 1] - x[0, 0]}')
     if shp[0] > 1 and not np.allclose(np.diff(y, axis=0), dx, rtol=0, atol=TOL * ext):
         out.append(f'y is not spaced by dx={dx}: first step {y[1, 0] - y[0, 0]}')
+    if np.ptp(x, axis=0).max() > TOL * ext or np.ptp(y, axis=1).max() > TOL * ext:
+        out.append('x varies along axis 0 or y varies along axis 1 (not a Cartesian grid)')
     if not np.allclose(r, np.hypot(x, y), rtol=0, atol=TOL * max(ext, float(np.abs(x).max()), float(np.abs(y).max()))):
         out.append(f'r is not hypot(x, y): max |r| = {r.max()}, max hypot = {np.hypot(x, y).max()}')
     tt = np.arctan2(y, x)
@@ -361,6 +372,16 @@ def op_failures(before, op, i):
         c = np.linalg.lstsq(np.stack([rho2, np.ones_like(rho2)]).T, d1[fin], rcond=None)[0]
         if abs(c[0]) * 2 > TOL * scale * 100:
             out.append(f're-fitting power after remove_power finds coefficient {c[0]}')
+    if op in ('pad1', 'pad21', 'padshape0') and d1.shape[0] >= d0.shape[0] and d1.shape[1] >= d0.shape[1]:
+        o0, o1 = d1.shape[0] // 2 - d0.shape[0] // 2, d1.shape[1] // 2 - d0.shape[1] // 2
+        blk = d1[o0:o0 + d0.shape[0], o1:o1 + d0.shape[1]]
+        if not np.array_equal(blk, d0, equal_nan=True):
+            out.append(f'pad {d0.shape} -> {d1.shape} did not keep the samples as a block with its centre sample on the new centre')
+        fillv = 0.0 if op == 'padshape0' else np.nan
+        ring = np.ones(d1.shape, bool)
+        ring[o0:o0 + d0.shape[0], o1:o1 + d0.shape[1]] = False
+        if not np.array_equal(d1[ring], np.full(int(ring.sum()), fillv), equal_nan=True):
+            out.append(f'pad did not fill the periphery with the requested value {fillv}')
     if op == 'crop':
         if not np.array_equal(np.sort(_valid(d0)), np.sort(_valid(d1))):
             out.append('crop lost or altered valid samples')
@@ -578,17 +599,17 @@ class Runner:
         self.lines, self.expect = [], []
 
 
-def _dfs(run, cfg, i, prefix, reqs, alphabet, depth):
+def _dfs(run, cfg, i, prefix, reqs, alphabet, depth, values=False):
     if depth == 0:
         return
     for op in alphabet:
         j = copy.deepcopy(i)
-        r = run.do_step(cfg, prefix, j, op)
+        r = run.do_step(cfg, prefix, j, op, values=values and len(prefix) < 2)
         if r is None:
             continue
         reqs2 = reqs + r
         run.queue_state(cfg, prefix + [op], reqs2, j)
-        _dfs(run, cfg, j, prefix + [op], reqs2, alphabet, depth - 1)
+        _dfs(run, cfg, j, prefix + [op], reqs2, alphabet, depth - 1, values)
 
 
 def all_configs():
@@ -752,7 +773,7 @@ def correspondence(ctx):
             ctx.disagree('crop_box', c, want, line, note='model crop window vs bounding box of the generated valid region')
     # no lateral calibration (dx = 0: every coordinate is 0): constructor state and short histories without the operations
     # that divide by dx or need an ascending grid
-    dx0_ops = [op for op in ALPHABET if op not in ('filter', 'mask_r', 'exact_xy', 'exact_x', 'pvr', 'psd', 'slices')]
+    dx0_ops = DX0_ALPHABET
     for shape in ((8, 8), (7, 10)):
         cfg = {'shape': list(shape), 'pattern': 'circular', 'dx': 0.0, 'data_seed': 77}
         i0 = make_obj(cfg)
@@ -766,16 +787,19 @@ def correspondence(ctx):
         if i0._latcaled is not True or any(getattr(i0, a) is not None for a in ('_x', '_y', '_r', '_t')):
             ctx.disagree('constructor', cfg, f'_latcaled={i0._latcaled}', 'dx != 0: laterally calibrated; all caches empty')
     # exhaustive, prefix-shared
-    ndeep = ctx.scale(2 + widen, 3)
+    ndeep = ctx.scale(2 + widen, 2)
     deep = [cfgs[k] for k in order[:ndeep]]
     mid = [cfgs[k] for k in order[ndeep:]]
     for cfg in deep:
         cfg = dict(cfg, data_seed=int(ctx.rng.integers(1, 10 ** 6)))
-        _dfs(run, cfg, make_obj(cfg), [], [], ALPHABET, ctx.scale(3, 4))
+        _dfs(run, cfg, make_obj(cfg), [], [], DFS3_ALPHABET, ctx.scale(3, 4))
         if len(run.lines) > 200000:
             run.flush()
-    for cfg in mid:
-        _dfs(run, cfg, make_obj(cfg), [], [], ALPHABET, ctx.scale(2, 3))
+    if not ctx.thorough:
+        mid = mid[:26]
+    for k, cfg in enumerate(mid):
+        _dfs(run, cfg, make_obj(cfg), [], [], ALPHABET, ctx.scale(2, 3) if not (ctx.thorough and k >= 20) else 2,
+             values=(k < 6))
     run.flush()
     if ctx.thorough:
         for cfg in mid[:1]:
@@ -853,7 +877,7 @@ def search(ctx, hints):
     cands.sort(key=lambda c: len(c['ops']))
     for c in cands[:150]:
         cfg = {k: c[k] for k in ('shape', 'pattern', 'dx', 'data_seed')}
-        for ext in [[]] + [[op] for op in ALPHABET]:
+        for ext in [[]] + [[op] for op in (ALPHABET if cfg['dx'] != 0 else DX0_ALPHABET)]:
             ops = list(c['ops']) + ext
             if len(ops) > 8:
                 continue
